@@ -168,14 +168,19 @@ def oracleC10 (op : String) (args : List Bytes) (impl : String) : String × Stri
     | some calls =>
       -- Writable: rcsid absent or '$NetBSD: ' without '\n'; every inserted entry has a checksum or a
       -- size; patch entries have no size; names/hashes clean; distinct files
-      let ents := calls.filterMap fun | .insert e => some e | _ => none
-      let rc := calls.filterMap fun | .rcsid s => some s | _ => none
+      -- the ASSEMBLED value: inserting a name that is already there replaces that entry in place
+      -- (and `insert` returns false); the last `set_rcsid` wins
+      let inserted := calls.filterMap fun | .insert e => some e | _ => none
+      let (ents, news) := inserted.foldl (fun (acc : List Entry × List Bool) e =>
+        if acc.1.any (fun x => S.sameFile x.filename e.filename) then
+          (acc.1.map (fun x => if S.sameFile x.filename e.filename then e else x), acc.2 ++ [false])
+        else (acc.1 ++ [e], acc.2 ++ [true])) ([], [])
+      let rc := (calls.filterMap fun | .rcsid s => some s | _ => none).getLast?.toList
       let names := ents.map (·.filename)
-      let distinct := names.zipIdx.all fun (n, i) => (names.take i).all fun m => !S.sameFile m n
       let writable := rc.all (fun s => (ascii "$NetBSD: ").isPrefixOf s && !s.contains 10) &&
         ents.all (fun e => (!e.checksums.isEmpty || e.size.isSome) &&
           (S.entryType e.filename == .distfile || e.size.isNone) && S.cleanName e.filename &&
-          e.checksums.all fun c => S.cleanHash c.2) && distinct
+          e.checksums.all fun c => S.cleanHash c.2)
       let nt := if ents.length ≥ 2 && names.any highByte then "nt" else ""
       if !writable then ("na", "not-writable")
       else
@@ -184,7 +189,8 @@ def oracleC10 (op : String) (args : List Bytes) (impl : String) : String × Stri
           -- rest = dump(d) (3 parts), hex, dump(reparsed) (3 parts), entries
           match rest with
           | [r1, d1, p1, _, r2, d2, p2, _] =>
-            if rets.toList.any (· != '1') then ("fail:insert-of-a-new-file-returned-false", nt)
+            if rets != String.join (news.map fun x => if x then "1" else "0") then
+              ("fail:insert-return-value-is-not-whether-the-file-was-new", nt)
             else if r1 == r2 && d1 == d2 && p1 == p2 then ("ok", nt)
             else ("fail:write-then-parse-differs-from-the-assembled-value", nt)
           | _ => ("fail:malformed-result", nt)
